@@ -211,23 +211,35 @@ func viaCLI(c *Case, nfiles int, exe, dir string, idx int) {
 	}
 }
 
-// matrixCases: the real `-matrix` path against the real `-f binary` output of the same configurations.
-// Module 1: files under build tags, every configuration compiles. Module 2: a GOOS-specific file with a type
-// error, so the package fails to compile under one configuration while the others report an 'all' problem
-// (U1000) in its common file. The problems of the runs are taken from `-matrix -f binary` (decodeGob); the
-// checked files of every run are EXPECTED from what the harness knows by construction (files of the packages
-// that compile in that configuration) and compared with the CheckedFiles of the real lintResult; the
-// observations are the output of `-matrix -f text` and `-f json`.
+// matrixCases: the real in-process `-matrix` path against per-configuration runs obtained SEPARATELY.
+// Module mx: files under build tags (an unused func in a file only configuration a / only b compiles), every
+// configuration compiles. Module mxos: a GOOS-specific file with a type error, so the package fails to compile
+// under windows while the others report an 'all' problem (U1000) in its common file; an unused func in a
+// darwin-only file. For every configuration ONE process `staticcheck -matrix -f binary` with a one-line matrix
+// yields that configuration's run (decodeGob); its checked files are EXPECTED from what the harness knows by
+// construction and compared with the CheckedFiles of the real lintResult. The whole matrix is then linted by one
+// process in several configuration ORDERS (incl. a repeated configuration); the text and json output of each
+// order is compared with the specification applied to the separately obtained runs in that order.
+type mxConfig struct {
+	line string // matrix line
+	pkgs []PkgRes
+}
+
 func matrixCases(exe, work string) []Case {
 	var cases []Case
-	one := func(name string, files map[string]string, matrix string, pkgs [][]PkgRes) {
+	var mu sync.Mutex
+	var wg sync.WaitGroup
+	sem := make(chan struct{}, 8)
+	one := func(name string, files map[string]string, configs []mxConfig, orders [][]int) {
 		root := filepath.Join(work, name)
 		hx.WriteFile(filepath.Join(root, "go.mod"), "module example.com/"+name+"\n\ngo 1.22\n")
 		for f, src := range files {
 			hx.WriteFile(filepath.Join(root, f), src)
 		}
 		cache := filepath.Join(work, name+"-cache")
-		run := func(format string) []byte {
+		run := func(format, matrix string) []byte {
+			sem <- struct{}{}
+			defer func() { <-sem }()
 			cmd := exec.Command(exe, "-matrix", "-f", format, "./...")
 			cmd.Dir = root
 			cmd.Env = append(hx.GoEnv(), "STATICCHECK_CACHE="+cache)
@@ -243,13 +255,6 @@ func matrixCases(exe, work string) []Case {
 			}
 			return stdout.Bytes()
 		}
-		runs, err := lintcmd.VerifC12DecodeRuns(run("binary"))
-		if err != nil {
-			fatal(err)
-		}
-		if len(runs) != len(pkgs) {
-			fatal(fmt.Errorf("-matrix -f binary wrote %d runs for %d configurations", len(runs), len(pkgs)))
-		}
 		rel := func(f string) string {
 			if filepath.IsAbs(f) {
 				if r, err := filepath.Rel(root, f); err == nil {
@@ -258,27 +263,61 @@ func matrixCases(exe, work string) []Case {
 			}
 			return f
 		}
-		c := Case{Kind: "matrix", Base: -1, Runs: runs, Note: name + ": " + strings.ReplaceAll(strings.TrimSpace(matrix), "\n", " / "), Pkgs: pkgs, HasObsChecked: true}
-		for i := range c.Runs {
-			obs := append([]string{}, c.Runs[i].CheckedFiles...)
-			sort.Strings(obs)
-			c.ObsChecked = append(c.ObsChecked, obs)
-			c.Runs[i].CheckedFiles = nil // filled in from Pkgs (checked_of) by the check
-			for k := range c.Runs[i].Diagnostics {
-				c.Runs[i].Diagnostics[k].Message = firstLine(c.Runs[i].Diagnostics[k].Message)
-			}
+		// one process per configuration
+		single := make([]lintcmd.VerifC12Run, len(configs))
+		obsChecked := make([][]string, len(configs))
+		var wg1 sync.WaitGroup
+		for i := range configs {
+			wg1.Add(1)
+			go func(i int) {
+				defer wg1.Done()
+				rs, err := lintcmd.VerifC12DecodeRuns(run("binary", configs[i].line+"\n"))
+				if err != nil || len(rs) != 1 {
+					fatal(fmt.Errorf("-matrix -f binary for %q: %d runs, %v", configs[i].line, len(rs), err))
+				}
+				r := rs[0]
+				obs := append([]string{}, r.CheckedFiles...)
+				sort.Strings(obs)
+				obsChecked[i] = obs
+				r.CheckedFiles = nil // filled in from Pkgs (checked_of) by the check
+				for k := range r.Diagnostics {
+					r.Diagnostics[k].Message = firstLine(r.Diagnostics[k].Message)
+				}
+				single[i] = r
+			}(i)
 		}
-		if c.Text, err = parseText(run("text")); err != nil {
-			fatal(err)
+		wg1.Wait()
+		// the whole matrix in one process, several orders
+		for _, order := range orders {
+			wg.Add(1)
+			go func(order []int) {
+				defer wg.Done()
+				var lines []string
+				c := Case{Kind: "matrix", Base: -1, HasObsChecked: true}
+				for _, i := range order {
+					lines = append(lines, configs[i].line)
+					c.Runs = append(c.Runs, single[i])
+					c.Pkgs = append(c.Pkgs, configs[i].pkgs)
+					c.ObsChecked = append(c.ObsChecked, obsChecked[i])
+				}
+				matrix := strings.Join(lines, "\n") + "\n"
+				c.Note = name + ": " + strings.Join(lines, " / ")
+				var err error
+				if c.Text, err = parseText(run("text", matrix)); err != nil {
+					fatal(err)
+				}
+				if c.JSON, err = parseJSON(run("json", matrix)); err != nil {
+					fatal(err)
+				}
+				for i := range c.JSON {
+					c.JSON[i].File, c.JSON[i].EndFile = rel(c.JSON[i].File), rel(c.JSON[i].EndFile)
+				}
+				c.HasText, c.HasJSON = true, true
+				mu.Lock()
+				cases = append(cases, c)
+				mu.Unlock()
+			}(order)
 		}
-		if c.JSON, err = parseJSON(run("json")); err != nil {
-			fatal(err)
-		}
-		for i := range c.JSON {
-			c.JSON[i].File, c.JSON[i].EndFile = rel(c.JSON[i].File), rel(c.JSON[i].EndFile)
-		}
-		c.HasText, c.HasJSON = true, true
-		cases = append(cases, c)
 	}
 	pk := func(failed bool, files ...string) []PkgRes {
 		return []PkgRes{{Initial: true, Failed: failed, Files: files}}
@@ -286,23 +325,26 @@ func matrixCases(exe, work string) []Case {
 	one("mx", map[string]string{
 		"common.go": "package p\n\nfunc Common(x int) bool { return x == x }\n",
 		"foo.go":    "//go:build foo\n\npackage p\n\nfunc OnlyFoo(x int) bool {\n\thelper()\n\treturn x != x\n}\n",
+		"only_a.go": "//go:build foo\n\npackage p\n\nfunc onlyA() {}\n",
 		"helper.go": "package p\n\nfunc helper() {}\n",
 		"bar.go":    "//go:build bar\n\npackage p\n\nfunc unusedBar() {}\n",
 		"lonely.go": "package p\n\nfunc lonely() {}\n",
-	}, "a: -tags=foo\nb: -tags=bar\nc:\n", [][]PkgRes{
-		pk(false, "common.go", "foo.go", "helper.go", "lonely.go"),
-		pk(false, "bar.go", "common.go", "helper.go", "lonely.go"),
-		pk(false, "common.go", "helper.go", "lonely.go"),
-	})
+	}, []mxConfig{
+		{"a: -tags=foo", pk(false, "common.go", "foo.go", "helper.go", "lonely.go", "only_a.go")},
+		{"b: -tags=bar", pk(false, "bar.go", "common.go", "helper.go", "lonely.go")},
+		{"c:", pk(false, "common.go", "helper.go", "lonely.go")},
+	}, [][]int{{0, 1, 2}, {2, 1, 0}, {0, 1, 0}})
 	one("mxos", map[string]string{
 		"common.go":         "package p\n\nfunc Common(x int) bool { return x == x }\n\nfunc helper() {}\n",
 		"broken_windows.go": "package p\n\nvar broken int = \"not an int\"\n",
 		"extra_darwin.go":   "package p\n\nfunc onlyDarwin() {}\n",
-	}, "linux: GOOS=linux\ndarwin: GOOS=darwin\nwindows: GOOS=windows\n", [][]PkgRes{
-		pk(false, "common.go"),
-		pk(false, "common.go", "extra_darwin.go"),
-		pk(true, "broken_windows.go", "common.go"), // fails to compile: nothing was analysed
-	})
+	}, []mxConfig{
+		{"linux: GOOS=linux", pk(false, "common.go")},
+		{"darwin: GOOS=darwin", pk(false, "common.go", "extra_darwin.go")},
+		{"windows: GOOS=windows", pk(true, "broken_windows.go", "common.go")}, // fails to compile: nothing was analysed
+	}, [][]int{{0, 1, 2}, {1, 2, 0}})
+	wg.Wait()
+	sort.Slice(cases, func(i, j int) bool { return cases[i].Note < cases[j].Note })
 	return cases
 }
 
